@@ -266,6 +266,43 @@ def decimal_exact_parse_rule(ctx):
             cn = [strip_generics(cname(t)) for bb, t in cb.calls() if not cb.is_cleanup(bb)]
             if any(n_.endswith('Decimal::from_str_exact') for n_ in cn) and any('trim_end_matches' in n_ for n_ in cn) and any(n_.endswith('Decimal::from_str_exact') for n_ in names):
                 retried = True
+    # ... and the text without them may be nothing at all (".000", "-.0": rust_decimal reads ".0" as zero but refuses "" and a
+    # bare sign), so the retry is guarded by a test that something is left - or builds a new text
+    units = []
+    for x in f.body_list:
+        if x.id.startswith(('ser::', '<ser::')):
+            units += [u for u in [x] + list(f.closures_of(x)) if all(u.id != v.id for v in units)]
+    n_retry, unguarded = 0, []
+    for u in units:
+        calls = [(bb, t) for bb, t in u.calls() if not u.is_cleanup(bb)]
+        if not any('trim_end_matches' in strip_generics(cname(t)) for bb, t in calls):
+            continue
+        builds = any(strip_generics(cname(t)).endswith(('fmt::format', 'String::push_str', 'String::push', 'slice::<impl [T]>::concat', 'str::<impl str>::to_owned'))
+                     for bb, t in calls)
+        for bb, t in calls:
+            if not strip_generics(cname(t)).endswith('Decimal::from_str_exact'):
+                continue
+            n_retry += 1
+            guarded = builds
+            for d, si, taken in dominating_switches(u, bb):
+                if si.get('kind') == 'enum':
+                    continue
+                c = switch_condition(u, si)
+                neg = False
+                while c[0] == 'not':
+                    c, neg = c[1], not neg
+                if c[0] != 'call':
+                    continue
+                name = c[1]
+                empt = strip_generics(name).endswith('is_empty') or (name.endswith('::eq') and 'PartialEq' in name and any(
+                    isinstance(a, dict) and ((a.get('const') or {}).get('val') or {}).get('str') == '' for a in c[2].get('args', [])))
+                false_edge = taken[0] == 'val' and all(str(v) in ('0', 'false') for v in taken[1])
+                if empt and (false_edge != neg):
+                    guarded = True
+            if not guarded:
+                unguarded.append('%s at %s' % (short_fn(fn_label(u)), short_loc(t.get('span'))))
+    ctx.ob('DECSTR', 'nothing-but-zeroes-is-zero', retried and n_retry >= 1 and not unguarded, None,
+           '%d retry site(s) on the trimmed text; reached without a test that the trimmed text is not empty: %s' % (n_retry, unguarded or 'none'))
     ctx.ob('DECSTR', 'trailing-zeroes-are-not-digits', retried, None,
            'an error of the exact parse is retried on the text without the trailing zeroes of its fractional part: %s' % retried)
     ctx.ob('DECSTR', 'parsed-exactly', not rounding and exact >= 1, None,
@@ -462,6 +499,25 @@ def name_pair(ctx):
             det_prec = 'names are registered without a precedence: whichever of a type name and the short name of a namespaced named type (com.acme.Date next to a date) comes last, or is inserted unconditionally, shadows the other'
     ctx.ob('NAMEPAIR', 'register_name/short-and-full', ok_names, short_loc(nb.span), 'register_name registers both name() and fully_qualified_name(): %s' % ok_names)
     ctx.ob('NAMEPAIR', 'name-precedence', ok_prec, short_loc(nb.span), det_prec)
+    # a type name is registered at type-name precedence only for the branches the decoder names by it: a decimal over a
+    # fixed is named by the fixed's own name when decoding, so its "Decimal" alias must not compete with a bytes decimal's
+    fixed_as_type, n_dec_tn = [], 0
+    if tn is not None:
+        for bb, t in nb.calls():
+            if nb.is_cleanup(bb) or (t.get('resolved') or '') != tn.id:
+                continue
+            doms = dominating_switches(nb, bb)
+            if not any(si.get('kind') == 'enum' and taken[0] == 'variant' and 'Decimal' in taken[1] for d, si, taken in doms):
+                continue
+            n_dec_tn += 1
+            # the call must sit on an edge of a switch on the representation that excludes `Fixed`
+            if not any(si.get('kind') == 'enum' and (si.get('adt') or '').endswith('DecimalRepr') and
+                       taken[0] in ('variant', 'otherwise_variants') and taken[1] and 'Fixed' not in taken[1]
+                       for d, si, taken in doms):
+                fixed_as_type.append(short_loc(t.get('span')))
+    ctx.ob('NAMEPAIR', 'Decimal/fixed-alias-below-type-names', not fixed_as_type, short_loc(nb.span),
+           '%d registration(s) of a type name in the decimal arm; reachable for a decimal over a fixed (whose decoder-side name is the fixed\'s own, '
+           'so that "Decimal" would compete with a bytes decimal at equal precedence): %s' % (n_dec_tn, fixed_as_type or 'none'))
 
 
 # (kind, key) registered without a serializer capability: reviewed, one reason each
